@@ -341,8 +341,15 @@ impl DateFilter for ds::MonthdayRange {
         let in_month = Month::from_date(date);
 
         match self {
-            ds::MonthdayRange::Month { year, range } => {
-                year.unwrap_or(in_year) == in_year && range.wrapping_contains(&in_month)
+            ds::MonthdayRange::Month { year: None, range } => range.wrapping_contains(&in_month),
+            ds::MonthdayRange::Month { year: Some(year), range } => {
+                if range.start() <= range.end() {
+                    *year == in_year && range.contains(&in_month)
+                } else {
+                    // The range ends on the following year
+                    (*year == in_year && *range.start() <= in_month)
+                        || (*year + 1 == in_year && in_month <= *range.end())
+                }
             }
             ds::MonthdayRange::Date {
                 start: (start, start_offset),
@@ -421,7 +428,7 @@ impl DateFilter for ds::MonthdayRange {
                     }
                 };
 
-                Some(next_change_from_bounds(date, [start], [end]))
+                Some(next_change_from_bounds(date, [start], [end.pred_opt()?]))
             }
             ds::MonthdayRange::Date {
                 start: start @ (ds::Date::Fixed { year: Some(_), .. }, _),
